@@ -4,7 +4,12 @@ import json, os
 V = os.path.dirname(os.path.dirname(os.path.abspath(__file__)))
 import glob
 checks = {os.path.basename(f)[:-5]: json.load(open(f)) for f in sorted(glob.glob(os.path.join(V, "checks.d", "*.json")))}
-checks = {k: v for k, v in checks.items() if v.get("claimed", True)}
+need = ("pkg", "level_text", "level_note", "technique")
+for k, v in sorted(checks.items()):
+    miss = [f for f in need if f not in v]
+    if miss:
+        print("skipping", k, "- fragment incomplete:", miss)
+checks = {k: v for k, v in checks.items() if v.get("claimed", True) and all(f in v for f in need)}
 na = [e for e in json.load(open(os.path.join(V, "not_applicable.json"))) if e["property_id"] not in checks]
 m = {
  "version": 1,
